@@ -339,7 +339,80 @@ pub const REF_BUDGET: u64 = 200_000;
 /// Is the hard problem (ignoring soft requirements) satisfiable? `forced` must additionally be installed.
 pub fn ref_solve(w: &World, p: &ProblemSpec, forced: &[u32], leniency: Leniency) -> Sat {
     let (cnf, _) = build_cnf(w, p, forced, leniency);
-    dpll(&cnf, REF_BUDGET)
+    dpll_components(&cnf, REF_BUDGET)
+}
+
+/// DPLL per connected component of the variable-interaction graph (a chronological DPLL without learning
+/// would otherwise re-explore independent sub-problems exponentially often). Returns a combined model.
+pub fn dpll_components(cnf: &Cnf, budget: u64) -> Sat {
+    let n = cnf.nvars;
+    let mut parent: Vec<usize> = (0..n).collect();
+    fn find(p: &mut Vec<usize>, x: usize) -> usize {
+        let mut r = x;
+        while p[r] != r {
+            r = p[r];
+        }
+        let mut c = x;
+        while p[c] != r {
+            let nx = p[c];
+            p[c] = r;
+            c = nx;
+        }
+        r
+    }
+    for c in &cnf.clauses {
+        if c.is_empty() {
+            return Sat::Unsat;
+        }
+        let a = (c[0].unsigned_abs() - 1) as usize;
+        for l in &c[1..] {
+            let b = (l.unsigned_abs() - 1) as usize;
+            let (ra, rb) = (find(&mut parent, a), find(&mut parent, b));
+            if ra != rb {
+                parent[ra] = rb;
+            }
+        }
+    }
+    let mut groups: BTreeMap<usize, Vec<usize>> = BTreeMap::new(); // root -> clause indices
+    for (i, c) in cnf.clauses.iter().enumerate() {
+        let r = find(&mut parent, (c[0].unsigned_abs() - 1) as usize);
+        groups.entry(r).or_default().push(i);
+    }
+    if groups.len() <= 1 {
+        return dpll(cnf, budget);
+    }
+    let mut model = vec![false; n];
+    let mut unknown = false;
+    for (_, idxs) in groups {
+        // renumber the component's variables densely
+        let mut map: BTreeMap<usize, usize> = BTreeMap::new();
+        let mut sub = Cnf::default();
+        for i in idxs {
+            let mut cl = Vec::new();
+            for l in &cnf.clauses[i] {
+                let v = (l.unsigned_abs() - 1) as usize;
+                let k = map.len();
+                let nv = *map.entry(v).or_insert(k);
+                cl.push(if *l > 0 { (nv + 1) as i32 } else { -((nv + 1) as i32) });
+            }
+            sub.clauses.push(cl);
+        }
+        sub.nvars = map.len();
+        match dpll(&sub, budget) {
+            Sat::Unsat => return Sat::Unsat,
+            Sat::Unknown => unknown = true,
+            Sat::Sat(m) => {
+                for (v, nv) in map {
+                    model[v] = m[nv];
+                }
+            }
+        }
+    }
+    if unknown {
+        Sat::Unknown
+    } else {
+        Sat::Sat(model)
+    }
 }
 
 // ---------------------------------------------------------------------------------------------
